@@ -216,13 +216,26 @@ package coordinator
 
 //@ pure contains_t(g, t) = !t.Before(g.StartTime) && t.Before(g.EndTime)
 
+// list_inv: earliest/latest bound every item (the shortcut "t outside [earliest, latest] => not covered" relies on it).
+//@ pure list_inv(l) = all(k, 0, len(l.items), !l.earliest.After(l.items[k].StartTime) && !l.latest.Before(l.items[k].EndTime)) && (len(l.items) > 0 ==> !l.earliest.IsZero() && !l.latest.IsZero())
+
+//@ func (*sgList).Add
+//@   props C08
+//@   requires inv: list_inv(l)
+//@   requires real_times: !sgi.StartTime.IsZero() && !sgi.EndTime.IsZero()
+//@   ensures inv: list_inv(l)
+//@   ensures appended: len(l.items) == old(len(l.items)) + 1
+
 //@ func (sgList).ShardGroupAt
 //@   props C08
 //@   requires sorted_already: !l.needsSort
+//@   requires inv: list_inv(l)
 //@   loop 1 invariant idx_range: 0 <= idx && idx <= len(l.items)
+//@   loop 1 invariant none_before: all(k, 0, idx, !designates(l.items[k], t))
 //@   ensures in_list: result != nil ==> is_elem_of(result, l.items)
 //@   ensures contains: result != nil ==> contains_t(result, t)
 //@   ensures sound: result != nil ==> designates(result, t)
+//@   ensures complete: result == nil ==> all(k, 0, len(l.items), !designates(l.items[k], t))
 
 // Per-owner goroutine body (C03.2). The store, the shard writer and hinted handoff are abstracted:
 // every call returns an arbitrary result. Ghosts record what the body did.
